@@ -1,6 +1,7 @@
 import JinjaV.Model.Sx
 import JinjaV.Model.Autoesc
 import JinjaV.Model.SelectAutoescape
+import JinjaV.Model.AutoescRegion
 namespace JinjaV.Wire.Autoesc
 open JinjaV JinjaV.Escape JinjaV.HtmlFilt JinjaV.Autoesc
 
@@ -26,6 +27,14 @@ partial def decTm : Sx → Option Tm
   | .list [.atom "truncate", s, e, n] => do pure (.truncate (← decTm s) (← decTm e) (← n.toNat?))
   | _ => none
 
+partial def decBody : Sx → Option AutoescRegion.Body
+  | .list [.atom "data", .str s] => some (.data s.toList)
+  | .list [.atom "text", .str s] => some (.text s.toList)
+  | .list [.atom "seq", a, b] => do pure (.seq (← decBody a) (← decBody b))
+  | .list [.atom "region", m, b] => do pure (.region (← m.toBool?) (← decBody b))
+  | .list [.atom "block", b] => (decBody b).map AutoescRegion.Body.block
+  | _ => none
+
 def mfree (s : List Char) : Bool := s.all fun c => !isM c
 
 /-- `(autoesc eval TERM ("data" …))` → `(ok on off neutral unescape(on) mfree(on))`; data are plain strings, innermost first -/
@@ -49,6 +58,11 @@ def handle : List Sx → Sx
     | some en, some dis, some dfs, some dflt, some name =>
       Sx.ok (Sx.ofBool (JinjaV.SelectAutoescape.select asciiLower en dis dfs dflt name))
     | _, _, _, _, _ => Sx.bad
+  | [.atom "region", tmode, b] =>
+    match tmode.toBool?, decBody b with
+    | some tm, some b =>
+      Sx.ok (.list [S (AutoescRegion.render tm tm b), S (AutoescRegion.renderSpec tm b), Sx.ofBool (AutoescRegion.blocksAgree tm tm b)])
+    | _, _ => Sx.bad
   | [.atom "mfree", .str s] => Sx.ok (Sx.ofBool (mfree s.toList))
   | [.atom "free", .str chars, .str s] => Sx.ok (Sx.ofBool (s.toList.all fun c => !chars.toList.contains c))
   | _ => Sx.bad
